@@ -8,10 +8,10 @@ Section PIstep.
 Context (cs : amap pconf).
 Lemma PI_state s o th i s0 s' : step_state s th i s0 = Some s' -> PI_goal cs s o th (EState i s0) s'.
 Proof.
-  intros H f f' HR Hf HO HT j x xo x' xo' Hx Hxo [Pa Pc Ps Pd Pl] Hx' Hxo'.
+  intros H f f' HR Hf HO HT j x xo x' xo' Hx Hxo [Pa Pc Pd Pl] Hx' Hxo'.
   pose proof (rc_th _ _ _ HR) as Hrth.
   kind_cases H; pi_leaf j s x.
-  all: split_andb; subst; destruct (HT _ _ _ eq_refl Hx Hxo) as [Hs Hl]; pi_fin Hxo Hf.
+  all: split_andb; subst; pose proof (HT _ _ _ eq_refl Hx Hxo) as HQ; pi_fin Hxo Hf.
 Qed.
 
 End PIstep.
